@@ -239,6 +239,24 @@ def exec_call(c):
             return hdr
         return outcome(f, lambda: got), None                   # records yielded before a failure are observable
 
+    if api == "reader_open":
+        # readers are lazy: the header is parsed now, the records when the object is consumed (a later call)
+        bio = io.BytesIO(c["data"])
+
+        def f():
+            keep["r"] = fastavro.reader(bio, c.get("reader_schema"), **c.get("kw", {}))
+            return [keep["r"].codec, keep["r"].writer_schema, keep["r"].metadata]
+        return outcome(f), keep.get("r")
+
+    if api == "reader_consume":
+        got = []
+
+        def f():
+            for rec in c["reader"]:
+                got.append(canon(rec))
+            return None
+        return outcome(f, lambda: got), None
+
     if api == "validate":
         return outcome(lambda: fastavro.validate(c["datum"], c["schema"], **c.get("kw", {}))), None
 
@@ -296,7 +314,8 @@ def exec_call(c):
     raise SystemExit("unknown api " + api)
 
 
-EXEMPT_ARGS = ("named_schemas",)       # "apart from filling the caller-supplied named-schema dictionary"
+EXEMPT_ARGS = ("named_schemas",        # "apart from filling the caller-supplied named-schema dictionary"
+               "reader")               # a lazy reader object handed back for consumption: a stream, not schema/data
 OBSERVE_ARGS = ("metadata",)           # O2: neither schema nor data; recorded, not flagged
 
 
@@ -319,7 +338,10 @@ def run_history(calls):
             continue
         rc = resolve(c, slots)
         exempt = {id(rc[k]) for k in EXEMPT_ARGS if rc.get(k) is not None}
-        pick = base64.b64encode(pickle.dumps(rc, protocol=4)).decode()
+        try:
+            pick = base64.b64encode(pickle.dumps(rc, protocol=4)).decode()
+        except Exception:
+            pick = None                                 # e.g. a live reader object: only the rebuilt-arguments run applies
         before = {k: canon(v, exempt) for k, v in rc.items() if k not in EXEMPT_ARGS}
         ctx_before = ctx_cells()
         res, obj = exec_call(rc)
